@@ -83,5 +83,29 @@ def purity(ctx):
             for kind, label in (("control", "static/control"), ("hostcall", "static/hostcall")):
                 fs = [f for f in findings if f[0] == kind]
                 ctx.oblige(f"C14/{node.name}/{label}", not fs, [], props, kind=label, fn=f"{mod}.{node.name}", note="; ".join(f"line {ln}: {txt}" for _k, ln, txt in fs)[:600])
+    # hidden state across calls: memoised functions and module-level containers mutated from function bodies, anywhere in the
+    # package (a value created under one jit trace and reused outside it is a leaked tracer; results then depend on call history)
+    MEMO = ("lru_cache", "cache", "cached_property", "memoize", "memoise")
+    for modname, (path, tree) in sorted(it.source.modules.items()):
+        if not modname.startswith("flowjax") or modname.startswith("flowjax.experimental"):
+            continue
+        glob = {t.id for st in tree.body if isinstance(st, (ast.Assign, ast.AnnAssign)) for t in (st.targets if isinstance(st, ast.Assign) else [st.target])
+                if isinstance(t, ast.Name) and isinstance(getattr(st, "value", None), (ast.Dict, ast.List, ast.Set, ast.Call)) and not t.id.isupper() and t.id != "__all__"}
+        bad = []
+        for node in ast.walk(tree):
+            if isinstance(node, (ast.FunctionDef, ast.AsyncFunctionDef)):
+                for d in node.decorator_list:
+                    txt = ast.unparse(d)
+                    if any(m in txt for m in MEMO):
+                        bad.append(f"line {node.lineno}: {node.name} is memoised (@{txt})")
+                for sub in ast.walk(node):
+                    if isinstance(sub, (ast.Assign, ast.AugAssign)):
+                        tg = sub.targets if isinstance(sub, ast.Assign) else [sub.target]
+                        for t in tg:
+                            if isinstance(t, ast.Subscript) and isinstance(t.value, ast.Name) and t.value.id in glob:
+                                bad.append(f"line {sub.lineno}: {node.name} writes to the module-level container {t.value.id}")
+                    if isinstance(sub, ast.Call) and isinstance(sub.func, ast.Attribute) and isinstance(sub.func.value, ast.Name) and sub.func.value.id in glob and sub.func.attr in ("append", "update", "setdefault", "add", "extend", "pop", "clear", "insert"):
+                        bad.append(f"line {sub.lineno}: {node.name} mutates the module-level container {sub.func.value.id}")
+        ctx.oblige(f"C14/{modname}/frame/no_hidden_state_across_calls", not bad, [], props, kind="frame/pure", fn=modname, replay=dict(kind="c14", cls="", method="", vars={}), note="; ".join(bad)[:600])
     ctx.oblige("C14/struct/methods_analysed", n_methods >= 120, [], props, kind="struct", fn="flowjax", note=f"{n_methods} method bodies analysed")
     ctx.assume_note("C14: the conclusion (same values under jit/vmap, lossless flatten/unflatten and leaf serialisation) is JAX's / equinox's guarantee for pure functions without value-dependent Python control flow; only these premises are decided")
